@@ -5,6 +5,7 @@ from meta import COMMON_NOTE
 import brv
 from engine import Spec, Stream
 from monitors import node as mon
+from monitors import mgr as mon_mgr
 
 
 def gen(seed, tier, out):
@@ -18,6 +19,12 @@ def gen_real(seed, tier, out):
         subprocess.run([str(brv.BIN / "node"), "gen", str(seed), "6" if tier == "quick" else "60", tier, "real"], stdout=f, check=True)
 
 
+def gen_mgr(seed, tier, out):
+    n = 110 if tier == "quick" else 2000
+    with open(out, "w") as f:
+        subprocess.run([str(brv.BIN / "mgr"), "gen", str(seed), str(n), tier, "c15"], stdout=f, check=True)
+
+
 def _monitor(script):
     return mon.monitor_c15(script)
 
@@ -25,12 +32,13 @@ def _monitor(script):
 SPEC = Spec(
     prop="C15",
     title="No bytes from a peer can crash the process",
-    go_bins=["node"],
-    lean_targets=["BRV.Props.C15", "drv_node"],
+    go_bins=["node", "mgr"],
+    lean_targets=["BRV.Props.C15", "drv_node", "drv_mgr"],
     props_files=[brv.LEAN / "BRV/Props/C15.lean"],
     streams=[
         Stream("node", "node", "drv_node", gen, monitor=_monitor, nontrivial=mon.nontrivial, timeout=1500),
         Stream("realrepo", "node", "drv_node", gen_real, monitor=_monitor, nontrivial=mon.nontrivial, compare=False),
+        Stream("mgr", "mgr", "drv_mgr", gen_mgr, monitor=mon_mgr.monitor_c15, nontrivial=mon_mgr.nontrivial, timeout=900),
     ],
     rule="seeded hostile scripts run in an ISOLATED WORKER PROCESS (RLIMIT_AS 3.5 GiB; exit status + first panic line reported), delivered "
          "before the handshake / during verification / when ready: bad checksum, wrong magic, declared length larger or smaller than the data, "
@@ -39,14 +47,19 @@ SPEC = Spec(
          "random bytes, invalid UTF-8 commands, truncated frames, headers with hostile bits; then ping and peer close (Run must return). 12 % of the scripts run a node whose "
          "TxManager has a 40 ms request timeout (init txto=) and drive the time-dependent paths: the same never-delivered txid announced 2 and 3 times with and without `wait ms=90` in between "
          "(re-request after the timeout), inv after delivery, a tx delivered twice (classic / extended), `polltx` = TxManager.GetTxRequests + BitcoinNode.RequestTxs (what NodeManager.RequestTxs does). Second "
-         "stream `realrepo`: the production headers.Repository behind the node (hostile bits / timestamps in headers after verification)",
+         "stream `realrepo`: the production headers.Repository behind the node (hostile bits / timestamps in headers after verification). "
+         "Third stream `mgr` (several live connections): a real NodeManager over 2-8 real BitcoinNodes, each on its own connection to a scripted peer; hostile bytes (garbage, wrong magic, an oversized ping, "
+         "a frame cut by a hang-up, a malformed headers message, a header the repository rejects, a bad checksum, an unknown command) on ONE connection at any stage (no handshake, handshake only, ready, busy), "
+         "followed by routed requests: every other connection must answer the next ping with the right pong and keep receiving routed requests, the hit node's Run must have returned, and the manager must "
+         "skip and drop it (inputs whose decoding allocates a declared count are left to the isolated-worker stream)",
     assumptions=[
         "the clock is an input: ops during which the node reads the clock (inv, polltx) carry the harness's clock reading t=<ms since init>; the harness sleeps out of a 12 ms margin around the timeout before such an op and re-runs the script (up to 3 times) when the measured interval still leaves the side of the timeout open",
         "`none` (the node is waiting for input) is recognised when the node has consumed every byte sent, is blocked in Read and nothing arrived for 60 ms (counting wrapper around the node's side of the connection), else after the op's time bound",
         "a single allocation request above env.mem (2 GiB in the scripts; worker limit 3.5 GiB) aborts the process, requests between 256 MiB and 4 GiB-2 are not generated (grey zone of the limit)",
         "the Go runtime's makeslice panics above maxAlloc = 2^48 (recovered since 97ac3db), tries to allocate below",
         "the dependency's decoders are modelled by contract (decode result, and the sizes passed to make); validated by the differential runs, not proved",
-        "other connections / repositories unaffected: the spies behind a closed connection receive no further calls (observed), independence of separate BitcoinNode values is by construction (no shared mutable state but the repositories' own locks)",
+        "other connections / repositories unaffected: the spies behind a closed connection receive no further calls (observed); with several live connections under one NodeManager it is exercised by the `mgr` stream "
+        "(in-process, so only hostile inputs that cannot abort the process are used there)",
     ],
     modelled_funcs=["BitcoinNode.handleMessage", "readHeader", "readMessage", "DiscardInput", "DiscardInputWithCounter",
                     "BitcoinNode.readIncoming", "BitcoinNode.run", "BitcoinNode.handleTx", "BitcoinNode.handleExtended"],
@@ -63,5 +76,5 @@ META = dict(
          "whose exit status is observed; model and implementation agree on every script, including which inputs kill the worker.",
     note=COMMON_NOTE + "Known finding alloc-declared-count (kernel-checked witness C15_decoder_alloc_witness): wire.ReadVarString / MsgTx.BtcDecode allocate peer-declared counts (<= 2^48) before reading; an 89-byte "
          "version message before the handshake kills the process; not repairable inside /repo. Found and fixed during construction: up-front make([]byte, header.Length) in readMessage, missing recover in "
-         "handler goroutines, handshake-channel wedge (Run never returned). 'Other connections unaffected' is argued structurally, not exercised with two live connections.",
+         "handler goroutines, handshake-channel wedge (Run never returned). 'Other connections unaffected' is exercised by the `mgr` stream (2-8 live connections under one NodeManager, hostile bytes on one of them, then routed requests).",
 )
